@@ -101,6 +101,7 @@ class Producer(object):
 
     _sendLooper = None
     _sendLooperD = None
+    stopping = False
 
     def __init__(
         self,
@@ -316,6 +317,10 @@ class Producer(object):
                     "Exhausted attempt quota of {}".format(self._max_attempts),
                 )
             yield self.client.load_metadata_for_topics(topic)
+            if self.stopping:
+                # stop() cancelled the load; the client may report that as
+                # success, so don't carry on looking up (or retrying)
+                raise CancelledError(request_sent=False)
             if not self.client.metadata_error_for_topic(topic):
                 break
             self._req_attempts += 1
@@ -346,6 +351,11 @@ class Producer(object):
         reqsByTopicPart = defaultdict(list)
         payloadsByTopicPart = defaultdict(list)
         deferredsByTopicPart = defaultdict(list)
+
+        if self.stopping:
+            # Nothing is sent once stop() has begun; stop() cancels whatever
+            # is still outstanding
+            return
 
         # We now have a list of (succeeded/failed, partition/None) tuples
         # for the partition lookups we did on each message group, zipped with
@@ -445,7 +455,7 @@ class Producer(object):
         # We can be triggered by the LoopingCall, and have nothing to send...
         # Or, we've got SendRequest(s) to send, but are still processing the
         # previous batch...
-        if (not self._batch_reqs) or self._batch_send_d:
+        if (not self._batch_reqs) or self._batch_send_d or self.stopping:
             return
 
         # Save a local copy, and clear the global list & metrics
@@ -573,6 +583,11 @@ class Producer(object):
             Params:
             failed_payloads - list of (payload, failure) tuples
             """
+            if self.stopping:
+                # No retries once stop() has begun (the client reports the
+                # cancellation of an in-flight request as failed payloads);
+                # stop() cancels whatever is still outstanding
+                return
             # Do we have retries left?
             if self._req_attempts >= self._max_attempts:
                 # No, no retries left, fail each failed_payload with its
